@@ -11,6 +11,7 @@ Line-protocol driver for C18.  File lines inside one protocol line are separated
   MS⇥K n name ri re⇥Vline⇥Vline…⇥K …                                 Metadata(...).serialize()
   MD⇥line⇥…                                                           Metadata.deserialize
   SS⇥line⇥…                                                           SDFile.deserialize + SDRecord.deserialize
+  SF⇥line⇥…                                                           SDFile.deserialize, every record: header, get_structure(), metadata
   HS⇥name⇥initials⇥program⇥time⇥dim⇥scaling⇥energy⇥registry⇥comments   Header.serialize
   HD⇥l0⇥l1⇥l2                                                         Header.deserialize
 -/
@@ -177,6 +178,18 @@ def step (_ : Unit) (line : String) : Unit × String :=
            let p := recordParts r.2
            ("N" ++ str r.1) :: (p.1.map fun l => "H" ++ str l) ++ (p.2.1.map fun l => "C" ++ str l)
              ++ (p.2.2.map fun l => "M" ++ str l))
+       | .error e => showErr e)
+    | "SF" :: ls =>
+      (match sdfDeserialize (ls.map String.toList) with
+       | .ok recs =>
+         let parts := recs.map fun nr =>
+           let h := nr.2.header
+           (showMolR nr.2.mol, ("N" ++ str nr.1) :: ([str h.molName, str h.initials, str h.program, showTime h.time,
+               str h.dimensions, str h.scaling, str h.energy, str h.registry, str h.comments].map fun f => "h" ++ f))
+         if parts.any (fun p => p.1 == "unmodelled") then "unmodelled" else
+         "ok " ++ tabJoin ((recs.zip parts).flatMap fun rp =>
+           rp.2.2 ++ ["A" ++ (rp.2.1.drop 3).toString] ++
+             (rp.1.2.md.flatMap fun kv => ("K " ++ showKey kv.1) :: kv.2.map fun l => "V" ++ str l))
        | .error e => showErr e)
     | ["HS", nm, ini, prog, t, dim, sc, en, reg, com] =>
       (match parseTimeField t with
